@@ -31,6 +31,7 @@ DROPPED = ["visibility qualifiers (pub, pub(crate), pub(super))",
            "where a unit says or_guard_rule: a match arm `A | B if g => { body }` is written as the two arms `A if g => { body }` and `B if g => { body }`",
            "where a unit says lit_rule: a string literal turned into a String (`\"X\".to_string()`, `String::from(\"X\")`, with colour calls in between) becomes `lit(<hash of X>)`; contracts name the label as @LIT(X)@",
            "where a unit says loops: loop invariants are attached to the n-th loop header of the item (by position, the header text is the code's); anchor_re: the start of an item given as a regular expression",
+           "a statement `if COND { continue; }` directly in a loop body becomes `if COND { } else { <rest of the body> }` (Verus takes no `continue` in a `for`)",
            "where a unit says pub_fields: every field of an extracted struct is made `pub`",
            "where a unit says foreach_rule: a statement `<it>.for_each(|<pat>| { <body> });` is rewritten to `for <pat> in <it> { <body> }` (the definition of Iterator::for_each; Verus takes no closure capturing `&mut` state)",
            "where a unit says closure_contracts: the parameter list of a named closure is replaced by an annotated one (types, named result, requires/ensures) and its body, untouched, is wrapped in braces (Verus does not infer closure postconditions)",
@@ -288,6 +289,64 @@ def annotate_loops(item, specs, key):
                 header = header[:m.end()] + sp["name"] + ": " + header[m.end():]
         item = item[:st] + header + "\n" + sp["text"] + "\n" + item[br:]
     return item
+
+
+def continue_rule(txt):
+    """Verus takes no `continue` in a `for` loop. The common shape - a statement `if COND { continue; }` directly in a loop body -
+    is rewritten to `if COND { } else { <rest of the loop body> }` (same meaning: the rest of the iteration is skipped exactly
+    when COND holds). Any other use of `continue` is left alone (and is then unsupported -> inconclusive)."""
+    out = txt
+    pos = 0
+    while True:
+        k = out.find("continue;", pos)
+        if k < 0:
+            return out
+        # the block `{ continue; }` around it
+        b0 = out.rfind("{", 0, k)
+        b1 = out.find("}", k)
+        if b0 < 0 or b1 < 0 or out[b0 + 1:b1].strip() != "continue;":
+            pos = k + 1
+            continue
+        # the `if COND` before it: back to the previous statement boundary
+        j = b0
+        depth = 0
+        while j > 0:
+            c = out[j - 1]
+            if c in ")]":
+                depth += 1
+            elif c in "([":
+                depth -= 1
+            elif depth == 0 and c in ";{}":
+                break
+            j -= 1
+        head = out[j:b0]
+        if not head.strip().startswith("if ") or re.match(r"\s*else\b", out[b1 + 1:]):
+            pos = k + 1
+            continue
+        # the rest of the enclosing block
+        i = b1 + 1
+        depth = 0
+        in_str = False
+        while i < len(out):
+            c = out[i]
+            if in_str:
+                if c == "\\":
+                    i += 2
+                    continue
+                if c == '"':
+                    in_str = False
+            elif c == '"':
+                in_str = True
+            elif c == "{":
+                depth += 1
+            elif c == "}":
+                if depth == 0:
+                    break
+                depth -= 1
+            i += 1
+        rest = out[b1 + 1:i]
+        out = out[:b0] + "{ } else {" + rest + "}\n" + out[i:]
+        pos = b0 + 1
 
 
 def _match_paren(text, i):
@@ -564,6 +623,8 @@ def extract_item(e, vac=False):
             raise ExtractError(f"lost anchor: `{ea}` found {t.count(ea)} times in {e['file']}")
         end = t.index(ea, s) + len(ea)
         item = rewrite(t[s:end], e.get("keep_pub", False))
+        if "continue;" in item:
+            item = continue_rule(item)
         for sub in e.get("sig_subst", []):
             a, b = sub[0], sub[1]
             want = sub[2] if len(sub) > 2 else 1   # optional third element: exact number of occurrences
@@ -592,6 +653,8 @@ def extract_item(e, vac=False):
     item = rewrite(item, e.get("keep_pub", False))
     if e.get("foreach_rule"):
         item = foreach_rule(item)
+    if "continue;" in item:
+        item = continue_rule(item)
     if e.get("or_guard_rule"):
         item = or_guard_rule(item)
     if e.get("pub_fields"):
